@@ -93,7 +93,7 @@ func genArith(t *rapid.T) ArithCase {
 		start, end = end, start
 	}
 	c.Start, c.End = strconv.FormatInt(start, 10), strconv.FormatInt(end, 10)
-	switch rapid.IntRange(0, 11).Draw(t, "shape") {
+	switch rapid.IntRange(0, 19).Draw(t, "shape") {
 	case 0:
 		c.Start = garbage[rapid.IntRange(0, len(garbage)-1).Draw(t, "gs")]
 	case 1:
